@@ -323,6 +323,156 @@ def seipd2Open (sym aead cs keyLen : Nat) (opened : Option Bytes) : Out Bytes :=
   let (ks, nonceLen) ← seipd2Admit sym aead cs keyLen
   aeadDecryptInPlace sym aead ks nonceLen opened
 
+/-! ## 4b. admission of a session key by every encrypted container —
+`reader/sym_encrypted.rs` (SED, tag 9), `reader/sym_encrypted_protected.rs` (SEIPD v1/v2 and the
+GnuPG "OCB encrypted data" packet, tag 20), `message/types.rs Edata::decrypt_with_options` -/
+
+/-- what travels with a session key: `PlainSessionKey::{V3_4 { sym_alg }, V5, V6}` -/
+inductive SkKind where
+  | v34 (alg : Nat)
+  | v5
+  | v6
+deriving Repr, DecidableEq
+
+/-- key lengths `KeyInit::new_from_slice` of the RustCrypto cipher accepts (the primitive's
+contract): CAST5 5..16, Blowfish 4..56, Twofish 16/24/32, every other cipher exactly its key size -/
+def cipherKeyLenOk (sym keyLen : Nat) : Bool :=
+  if sym == Gen.symIdCAST5 then decide (5 ≤ keyLen ∧ keyLen ≤ 16)
+  else if sym == Gen.symIdBlowfish then decide (4 ≤ keyLen ∧ keyLen ≤ 56)
+  else if sym == Gen.symIdTwofish then keyLen == 16 || keyLen == 24 || keyLen == 32
+  else keyLen == symKeySize sym
+
+/-- `StreamDecryptor::new(alg, ..)` of `crypto/sym/decryptor.rs`: Plaintext and unknown ciphers are
+refused, then `BufDecryptor::<C>::new_from_slices(key, iv)` (`Err(InvalidLength)` for a key length the
+cipher does not take).  No slicing happens on the key. -/
+def cfbNew (sym keyLen : Nat) : Out Unit :=
+  if symKeySize sym = 0 then err else ensure (cipherKeyLenOk sym keyLen)
+
+/-- SED (tag 9): needs `enable_legacy()`, only v3/v4 session keys -/
+def sedAdmit (legacy : Bool) (sk : SkKind) (keyLen : Nat) : Out Unit :=
+  if !legacy then err
+  else match sk with
+    | .v34 alg => cfbNew alg keyLen
+    | _ => err
+
+/-- SEIPD v1: only v3/v4 session keys -/
+def seipd1Admit (sk : SkKind) (keyLen : Nat) : Out Unit :=
+  match sk with
+  | .v34 alg => cfbNew alg keyLen
+  | _ => err
+
+/-- SEIPD v2 through the reader: only v6 session keys, then `seipd2Admit` -/
+def seipd2AdmitSk (sym aead cs : Nat) (sk : SkKind) (keyLen : Nat) : Out (Nat × Nat) :=
+  match sk with
+  | .v6 => seipd2Admit sym aead cs keyLen
+  | _ => err
+
+/-- `GnupgAeadDataConfig::try_from_reader`: version 1, OCB only, a valid chunk-size octet -/
+def gnupgConfigOk (version aead cs : Nat) : Bool :=
+  version == 1 && aead == Gen.aeadIdOcb && decide (cs ≤ Gen.chunkSizeMaxOctet)
+
+/-- the `match session_key` of the GnuPG-AEAD branch: v6 keys are refused, a v3/v4 key must name
+the packet's cipher -/
+def gnupgSkCheck (sym : Nat) (sk : SkKind) : Out Unit :=
+  match sk with
+  | .v6 => err
+  | .v34 a => ensure (sym == a)
+  | .v5 => ok ()
+
+/-- `StreamDecryptor::new_gnupg`: the session key itself is the message key (no slicing here);
+`tag_size()` decides. Returns (message key length, nonce length). -/
+def gnupgNew (aead keyLen : Nat) : Out (Nat × Nat) :=
+  match aeadTagSize aead with
+  | none => err
+  | some _ => ok (keyLen, aeadIvSize aead)
+
+/-- GnuPG AEAD (tag 20): needs `enable_gnupg_aead()`; the key length is compared with the cipher's
+for every kind of session key -/
+def gnupgAdmit (optIn : Bool) (sym aead : Nat) (sk : SkKind) (keyLen : Nat) : Out (Nat × Nat) :=
+  if !optIn then err
+  else do
+    gnupgSkCheck sym sk
+    ensure (keyLen == symKeySize sym)                         -- ensure_eq!(session_key.len(), key_size)
+    gnupgNew aead keyLen
+
+/-- the hazardous variant in which the length is compared only for v5 keys ("the ESK layer has
+already matched a v3/v4 key against its algorithm" — false for X25519/X448 v3 PKESK, where the
+algorithm octet travels in the clear).  Regression witness only. -/
+def gnupgAdmitTrustingEsk (optIn : Bool) (sym aead : Nat) (sk : SkKind) (keyLen : Nat) : Out (Nat × Nat) :=
+  if !optIn then err
+  else do
+    gnupgSkCheck sym sk
+    ensure (sk != .v5 || keyLen == symKeySize sym)
+    gnupgNew aead keyLen
+
+/-- admission and the first AEAD call on the container -/
+def gnupgOpenWith (admission : Bool → Nat → Nat → SkKind → Nat → Out (Nat × Nat))
+    (optIn : Bool) (sym aead : Nat) (sk : SkKind) (keyLen : Nat) (opened : Option Bytes) : Out Bytes := do
+  let (k, n) ← admission optIn sym aead sk keyLen
+  aeadDecryptInPlace sym aead k n opened
+
+def gnupgOpen := gnupgOpenWith gnupgAdmit
+
+/-! ## 4c. RSA signature value padding — `crypto/rsa.rs verify` -/
+
+/-- length of the value handed to `RsaSignature::try_from`: a short value is left-padded to the
+modulus size, anything else is passed on as it is -/
+def rsaVerifyPad (keySize sigLen : Nat) : Out Nat :=
+  if sigLen < keySize then do
+    let diff ← sub keySize sigLen
+    let dst ← chkRange keySize diff keySize                   -- signature_padded[diff..]
+    copyLen dst sigLen
+    pure keySize
+  else pure sigLen
+
+/-- the hazardous variant that pads unconditionally with `saturating_sub` (regression witness) -/
+def rsaVerifyPadAlways (keySize sigLen : Nat) : Out Nat := do
+  let diff := keySize - sigLen
+  let dst ← chkRange keySize diff keySize
+  copyLen dst sigLen
+  pure keySize
+
+/-- `rsa::verify`: padding, then the primitive's verdict -/
+def rsaVerify (keySize sigLen : Nat) (valid : Bool) : Out Unit := do
+  let _ ← rsaVerifyPad keySize sigLen
+  ensure valid
+
+/-- ECDSA (`crypto/ecdsa.rs verify`, every curve) and EdDSA legacy (`PubKeyInner::verify`): `r` and
+`s` are left-padded into a `2 * FLEN` buffer after `ensure!(r.len() <= FLEN)`, `ensure!(s.len() <= FLEN)` -/
+def fieldPad2 (flen rLen sLen : Nat) : Out Unit := do
+  ensure (decide (rLen ≤ flen))
+  ensure (decide (sLen ≤ flen))
+  let a ← sub flen rLen
+  let d ← chkRange (2 * flen) a flen                          -- sig_bytes[(FLEN - r.len())..FLEN]
+  copyLen d rLen
+  let b ← sub flen sLen
+  let d2 ← chkRange (2 * flen) (flen + b) (2 * flen)          -- sig_bytes[FLEN + (FLEN - s.len())..]
+  copyLen d2 sLen
+
+/-- the same without the two `ensure!`s (regression witness) -/
+def fieldPad2Unguarded (flen rLen sLen : Nat) : Out Unit := do
+  let a ← sub flen rLen
+  let d ← chkRange (2 * flen) a flen
+  copyLen d rLen
+  let b ← sub flen sLen
+  let d2 ← chkRange (2 * flen) (flen + b) (2 * flen)
+  copyLen d2 sLen
+
+/-- how a signature value reaches the primitive, per algorithm family (`PubKeyInner::verify`):
+`native = true` for `SignatureBytes::Native`, `lens` the octet lengths of the MPIs (or of the blob),
+`unit` the modulus / field / blob size, `valid` the primitive's verdict on a well-shaped value -/
+inductive SigAlg where
+  | rsa | field | dsa | native
+deriving Repr, DecidableEq
+
+def sigShape (alg : SigAlg) (unit : Nat) (native : Bool) (lens : List Nat) (valid : Bool) : Out Unit :=
+  match alg, native, lens with
+  | .rsa, false, [l] => rsaVerify unit l valid
+  | .field, false, [r, s] => do fieldPad2 unit r s; ensure valid
+  | .dsa, false, [_, _] => ensure valid
+  | .native, true, [l] => do ensure (l == unit); ensure valid    -- `<&[u8; N]>::try_from(sig)?`
+  | _, _, _ => err                                              -- wrong representation / count
+
 /-! ## 5. packet header and length decoding — `types/packet.rs`, `packet/header.rs` -/
 
 /-- `1u32 << n` (panics when `n ≥ 32`) -/
@@ -591,6 +741,51 @@ def dearmorCalls (call : DPart → Bool → Bool → DPart × Out Unit) : DPart 
     | (_, Out.panic) => Out.panic
     | (st', _) => dearmorCalls call st' rest
 
+/-! ## 11c. `LiteralDataReader` state hand-over — `reader/literal.rs fill_inner` -/
+
+inductive LitState where
+  | body | done | error
+deriving Repr, DecidableEq
+
+/-- `LiteralDataReader::is_done()` -/
+def litIsDone (st : LitState) (bufferEmpty : Bool) : Out Bool :=
+  match st with
+  | .done => ok bufferEmpty
+  | .body => ok false
+  | .error => panic                                           -- panic!("LiteralDataReader errored")
+
+/-- `fill_inner` before the repair (D4h): `if self.is_done()` comes first, and `is_done` panics in
+the `Error` state.  `bufferEmpty`: nothing left in the buffer; `fillOk`: `fill_buffer_bytes`
+succeeded; `short`: it delivered less than `BUFFER_SIZE` (source exhausted). -/
+def litFillInnerPreFix (st : LitState) (bufferEmpty fillOk short : Bool) : LitState × Out Unit :=
+  match litIsDone st bufferEmpty with
+  | .panic => (st, panic)
+  | .err => (st, err)
+  | .ok true => (st, ok ())
+  | .ok false =>
+    match st with
+    | .body =>
+      if !bufferEmpty then (.body, ok ())
+      else if !fillOk then (.error, err)                      -- mem::replace(self, Error); `?`
+      else if short then (.done, ok ()) else (.body, ok ())
+    | .done => (.done, ok ())
+    | .error => (.error, panic)                               -- Self::Error => panic!("LiteralReader errored")
+
+/-- `fill_inner` with the guard `if matches!(self, Self::Error) { return Err(..) }` in front -/
+def litFillInner (st : LitState) (bufferEmpty fillOk short : Bool) : LitState × Out Unit :=
+  match st with
+  | .error => (.error, err)
+  | s => litFillInnerPreFix s bufferEmpty fillOk short
+
+/-- a consumer that keeps calling `read`/`fill_buf` (each runs `fill_inner`), whatever it returned -/
+def litCalls (call : LitState → Bool → Bool → Bool → LitState × Out Unit) :
+    LitState → List (Bool × Bool × Bool) → Out Unit
+  | _, [] => ok ()
+  | st, (e, f, s) :: rest =>
+    match call st e f s with
+    | (_, Out.panic) => Out.panic
+    | (st', _) => litCalls call st' rest
+
 /-! ## 12. `read_cleartext_body` — `composed/cleartext.rs` -/
 
 def DASHES5 : Bytes := [DASH, DASH, DASH, DASH, DASH]
@@ -801,6 +996,10 @@ def ecdhDeriveCur (encKeyLen eskLen kekLen : Nat) (unwrapped : Option Bytes) : O
   if Gen.fixEcdhLen = 1 ∧ encKeyLen < eskLen then err
   else if Gen.fixD4f = 1 ∧ eskLen ≤ encKeyLen ∧ encKeyLen < Gen.aesKwIvLen then err
   else ecdhDerive encKeyLen eskLen kekLen unwrapped
+
+def litFillInnerCur (st : LitState) (bufferEmpty fillOk short : Bool) : LitState × Out Unit :=
+  if Gen.fixD4h = 1 then litFillInner st bufferEmpty fillOk short
+  else litFillInnerPreFix st bufferEmpty fillOk short
 
 def dearmorCallCur (st : DPart) (stepOk more : Bool) : DPart × Out Unit :=
   if Gen.fixD4g = 1 then dearmorCallFixed st stepOk more else dearmorCall st stepOk more
